@@ -25,7 +25,7 @@ RULE = ('cases are (table with labels over any printable text incl. \\n \\r \\t,
         'python-literal file utf-8 / utf-16} x dump ignore_lattice {False, True, None before / after the lattice was '
         'touched} x load ignore_lattice x raw {False, True with seed-derived, independently chosen permutations of the '
         'lattice list (indexes remapped), of the neighbour index lists, of the extent / intent index lists and of '
-        'the context rows} x pickles of Context and Lattice, '
+        'the context rows} x pickles of Context and Lattice (every protocol 0..HIGHEST), '
         'loaded in-process and in fresh interpreters with other PYTHONHASHSEED values. '
         '(Pickles of individual Concept objects are not part of the property and are not generated.) Oracle: (a) todict() == the encoding computed from the reference model; (b) every loader returns a context '
         '== the original with identical triple, a lattice attached exactly when stored and not ignored, and the '
@@ -211,6 +211,13 @@ def check_one(case, ctx, children=None):
     which = cfg['pickle']
     if which != 'none':
         lattice = context.lattice
+        for proto in range(pickle.HIGHEST_PROTOCOL + 1):
+            target = context if which == 'context' else lattice
+            pb = ctx.call(f'pickle.dumps({which}, protocol={proto})', q, pickle.dumps, target, proto)
+            back = ctx.call(f'pickle.loads({which}, protocol={proto})', q, pickle.loads, pb)
+            got = fp.lattice_fingerprint(back.lattice if which == 'context' else back, 'c11') if k <= 64 else None
+            ctx.check(got is None or got == expected, f'pickle({which})/protocol', q,
+                      lambda: f'unpickled (protocol {proto}) differs: {fp.diff(got, expected)}')
         if which == 'context':
             blob = ctx.call('pickle.dumps(context)', q, pickle.dumps, context)
             back = ctx.call('pickle.loads(context)', q, pickle.loads, blob)
